@@ -687,8 +687,19 @@ func cmdCheck(args []string) int {
 				}
 			}
 		}
+		partial := false
+		for _, hr := range r.rs {
+			if !hr.Exhaustive {
+				partial = true
+			}
+		}
 		for _, l := range r.h.Reach {
 			switch {
+			case partial && (!symReached[l] || !nativeReached[r.h.Name][l]):
+				// the exploration stopped at its deadline: a label that was not
+				// reached (or whose paths were not among those replayed) says
+				// nothing about vacuity; reported, not an error
+				inconclusive = append(inconclusive, fmt.Sprintf("%s: label %q not reached before the deadline (exploration not exhaustive)", r.h.Name, l))
 			case !symReached[l]:
 				vacuous = append(vacuous, r.h.Name+":"+l)
 			case cleanReached[l] && !nativeReached[r.h.Name][l]:
